@@ -195,3 +195,13 @@ Theorem ext_trig_after_drop_refuted_pre_fix :
   znth [] (map b_ext (blocks_of (run wit_est true wit_g 1 (init_state wit_g) (wit_ops wit_S2)))) 2 = [214; 221; 228; 235].
 Proof. exact ext_after_drop_refuted_pre_fix_proof. Qed.
 Print Assumptions ext_trig_after_drop_refuted_pre_fix.
+
+(* 2x3, reads of 240 bytes, 20 bytes lost at byte 244: the reader goroutine panicked ("expect dropFromEnd>0",
+   the server died) after releasing 28 bytes; after the fix the read is a reported drop: 28 bytes released up to the
+   frame start found, 8 whole frames delivered.  (One intact frame in front of that frame start is lost with the
+   damaged one: that part stays in the finding gap-word-aligned-inside-read.) *)
+Theorem reader_panic_refuted_pre_fix :
+  tick_kind (reader_tick_old wit_g [] (zslice wit_S4 240 240) 2) = (4, [28]) /\
+  tick_kind (reader_tick wit_g [] (zslice wit_S4 240 240) 2) = (3, [28; 192]).
+Proof. exact reader_panic_refuted_pre_fix_proof. Qed.
+Print Assumptions reader_panic_refuted_pre_fix.
